@@ -150,9 +150,11 @@ theorem C14_globals : Gen.globalVars =
     [("common", "messageXid"), ("openflow13", "NewOfp13Header"), ("openflow13", "oxxFieldHeaderMap"),
      ("protocol", "DHCPOptionTypeStrings"), ("protocol", "dhcpMagic")] := by decide
 
-/-- … and the ONLY write / address-of / delete on any of them outside its declaration is the address of the
-    counter handed to atomic.AddUint32 in NewHeaderGenerator -/
+/-- … and EVERY write / address-of / delete on any of them outside its declaration is the address of the xid counter
+    handed to atomic.AddUint32 (in whichever function that call sits; there is at least one such site) -/
 theorem C14_only_atomic_write :
-    Gen.globalWrites = [("common", "messageXid", "NewHeaderGenerator", "addr:atomic.AddUint32")] := by decide
+    Gen.globalWrites ≠ [] ∧
+    Gen.globalWrites.all (fun w => w.1 = "common" && w.2.1 = "messageXid" && w.2.2.2 = "addr:atomic.AddUint32") = true := by
+  decide
 
 end OFV.Props.C14
